@@ -8,11 +8,12 @@ def _opseq(prop, rule, qdepth=3, tdepth=4, extra_assume=(), qdl=300, tdl=1500):
 
 CHECKS["C01"] = _opseq("C01", "BFS over histories of {load, refine*, update, merge, clear, setcoef, begin, deliver, finish} from every configuration of the lattice; "
                        "in every state evaluate/evaluateBatch/evaluateFast at every loaded point are compared with the reference map of supplied values "
-                       "(local polynomial grids only when the reference hierarchy says every loaded point has all parents)")
+                       "(local polynomial grids only when the reference hierarchy says every loaded point has all parents); the macro transition 'round' (refine + load) reaches multi-round adaptive histories", qdepth=4, tdepth=5)
 CHECKS["C04"] = _opseq("C04", "BFS over histories incl. pending refinement, merge, partial construction, coefficient overwrite; in every state all documented routes "
-                       "(evaluate, weights.values, coefficients.basis, batch rows, sparse vs dense, support radius, integrate routes, differentiate routes) are compared")
+                       "(evaluate, weights.values, coefficients.basis, batch rows, sparse vs dense, support radius, integrate routes, differentiate routes) are compared; plus, for 3-D local polynomial configurations, "
+                       "every pair of user-chosen samples of the depth-3 grid delivered as one batch to a depth-1 grid under construction (2346 pairs per configuration)", qdepth=3, tdepth=4)
 CHECKS["C07"] = _opseq("C07", "BFS over interleavings of refinement (all strategies, tolerances, outputs, scale corrections through both overloads), update, load/reload, merge, clear; "
-                       "invariants (duplicate-free, disjoint, value attachment by coordinate) in every state, step relations on every transition, reference selection of the classic criterion")
+                       "invariants (duplicate-free, disjoint, value attachment by coordinate) in every state, step relations on every transition, reference selection of the classic criterion", qdepth=4, tdepth=5)
 CHECKS["C08"] = _opseq("C08", "BFS over histories that introduce, keep, replace and clear level limits through make, update, every refinement entry point and candidate requests; "
                        "every loaded/needed/candidate point is checked against the 1-D level limit; -1 entries are compared with a large limit; every call runs under a watchdog",
                        extra_assume=["a limit vector is only trusted when it dominates the levels already present (DESIGN C08 scope decision)"])
